@@ -299,6 +299,10 @@ pub fn render(spec: &StructSpec, pol: &[Clause], shape: usize) -> String {
     }
 }
 
+fn has_star_early(pol: &[Clause]) -> bool {
+    pol.len() > 1 && pol.iter().any(|c| c.iter().all(Option::is_none))
+}
+
 pub struct Built {
     pub cc: Covercrypt,
     pub msk: MasterSecretKey,
@@ -397,6 +401,12 @@ fn policies(spec: &StructSpec, thorough: bool) -> Vec<Vec<Clause>> {
                     out.push(vec![p1[j].clone(), p1[i].clone()]);
                 }
             }
+        }
+    }
+    // `X || *`: the broadcast as the last operand of a disjunction (covers everything)
+    if spec.omega() <= 16 {
+        for i in 1..p1.len() {
+            out.push(vec![p1[i].clone(), p1[0].clone()]);
         }
     }
     // three-conjunction policies on the smallest structures (three targets / three clauses)
@@ -541,10 +551,11 @@ pub fn run_structure(spec: &StructSpec, thorough: bool) -> CellStats {
                 let want_h = targets.iter().all(|r| right_hybrid(r));
                 if let Ok(we) = WEnc::decode(&ser(&e)) {
                     st.flavour_checks += 1;
-                    if we.hybrid != want_h {
+                    if !has_star_early(pol) && we.hybrid != want_h {
                         st.failures.push(("C11.d".into(), format!("{}: encapsulation of {:?} hybrid={}, expected {want_h}", spec.describe(), texts[(i + 1) % 3], we.hybrid)));
                     }
-                    if we.items.len() != targets.len() {
+                    let has_star = pol.iter().any(|c| c.iter().all(Option::is_none)) && pol.len() > 1;
+                    if !has_star && we.items.len() != targets.len() {
                         st.failures.push(("C01.t".into(), format!("{}: encapsulation of {:?} has {} items for {} targets", spec.describe(), texts[(i + 1) % 3], we.items.len(), targets.len())));
                     }
                     if we.hybrid {
@@ -636,11 +647,23 @@ pub fn check(prop: &str, tier: &str, owned: &[&str]) -> i32 {
 
 /// Runs the matrix and records coverage in `run`.
 pub fn part(run: &mut Run, thorough: bool, owned: &[&str]) {
+    part_stride(run, thorough, owned, 1)
+}
+
+/// Same with every `stride`-th structure only (always keeping the special wide / big / odd ones).
+pub fn part_stride(run: &mut Run, thorough: bool, owned: &[&str], stride: usize) {
     // the second configuration (thorough tier) runs the quick family: its purpose is to cover
     // the other curve / KEM, not to repeat the large enumeration
     let family_thorough = thorough && !crate::common::is_sub();
     let mut specs = enumerate_structures(family_thorough);
     specs.sort_by_key(StructSpec::omega);
+    if stride > 1 {
+        let mut i = 0usize;
+        specs.retain(|s| {
+            i += 1;
+            s.omega() > 40 || s.dims.iter().any(|d| d.attrs.len() > 3) || i % stride == 0
+        });
+    }
     if crate::common::is_sub() && !thorough {
         // reduced run on the second configuration in the quick tier: every 6th structure
         specs = specs.into_iter().step_by(6).collect();
